@@ -52,7 +52,7 @@ def _explore_worker(cname):
     try:
         signal.signal(signal.SIGINT, signal.SIG_IGN)
         c = engine.CONTRACTS[cname]
-        repo = Repo()
+        repo = Repo(loop_contracts=c.loops)
         t0 = time.time()
         res = engine.explore(c, repo)
         recs = engine.serialise(c, res) if res["status"] == "ok" else []
